@@ -488,7 +488,7 @@ func TestChild(t *testing.T) {
 // ---- parent -----------------------------------------------------------------
 
 var stats = rig.NewStats("C07",
-	"rapid draws (a) a probe program for a brand-new router (0-5 registrations / removals, with or without WithTrace: OPTIONS *, OPTIONS / 405 / Node().Methods() per live pattern, Routes() after every step) and 1-4 unrelated instances (routers, Hosts, groups) with 3-12 registrations over eleven different method sets each; (b) 2-4 instance programs (router / Hosts / Group.New router, with and without their own lock) each built, mutated and served by its own goroutine; (c) a table, with or without WithLock, then 2-16 goroutines x 10-120 requests with per-request distinct parameter values whose handler reads its parameters, yields, and reads them again. Everything runs in one fresh -race child process per case: the probe runs first (pristine), after the sequential activity and after the concurrent parts, and the three renderings must be identical and satisfy the Allow model; every instance satisfies its own sequential oracle; every quiescent request sees exactly its own parameters and handler; no race report, no fatal error. Non-trivial: the activity used >= 3 distinct method sets, >= 2 instances ran in parallel and >= 2 goroutines served the quiescent router; distinct by hash of the case",
+	"rapid draws (a) a probe program for a brand-new router (0-5 registrations / removals, with or without WithTrace: OPTIONS *, HEAD / OPTIONS / GET / PATCH / HEAD per live pattern on handlers that alternately write a body or only WriteHeader(202) - status, Allow, Node().Methods(), body length and Content-Length observed -, Routes() after every step) and 1-4 unrelated instances (routers, Hosts, groups) with 3-12 registrations over eleven different method sets each; (b) 2-4 instance programs (router / Hosts / Group.New router, with and without their own lock) each built, mutated and served by its own goroutine; (c) a table, with or without WithLock, then 2-16 goroutines x 10-120 requests with per-request distinct parameter values whose handler reads its parameters, yields, and reads them again. Everything runs in one fresh -race child process per case: the probe runs first (pristine), after the sequential activity and after the concurrent parts, and the three renderings must be identical and satisfy the Allow model; every instance satisfies its own sequential oracle; every quiescent request sees exactly its own parameters and handler; no race report, no fatal error. Non-trivial: the activity used >= 3 distinct method sets, >= 2 instances ran in parallel and >= 2 goroutines served the quiescent router; distinct by hash of the case",
 	"interleavings are sampled by the Go scheduler under GOMAXPROCS 2/4/16",
 	"instances are used from one goroutine each: the property is about distinct instances, not about sharing one")
 
